@@ -105,17 +105,32 @@ func (c *chainRun) ancestors(h common.Hash) []*cblock { // h first
 }
 
 func (c *chainRun) newTx(nonce uint64, req uint64) int {
+	return c.newTxFrom(chFunded, nonce, req)
+}
+
+// newTxFrom: a transaction of the given account. For the account chPoor it is a JSON-RPC (ETH) transaction with a
+// nonce far ahead of the account's: jsonrpcExecutor.BeforeExecute says "not addable" and the executor puts the hash
+// on the block's evicted list instead of executing it (no receipt, dropped from block.Transactions).
+func (c *chainRun) newTxFrom(src string, nonce uint64, req uint64) int {
 	id := c.w.next
 	c.w.next++
-	tx := &types.Transaction{Source: chFunded, Target: "0x42c8c9b13fc0573d18028b3398a887c4297ff646", Type: types.TransactionTypeOperatorEvent,
+	tx := &types.Transaction{Source: src, Target: "0x42c8c9b13fc0573d18028b3398a887c4297ff646", Type: types.TransactionTypeOperatorEvent,
 		Time: "2024-04-22", Data: "c17-" + strconv.Itoa(id), Nonce: nonce, RequestId: req, ChainId: "9500"}
 	tx.Hash = tx.GenHash()
+	if src == chPoor {
+		tx.Type = types.TransactionTypeETHTX
+		tx.Nonce = nonce + 99
+		nonce = tx.Nonce
+		tx.Hash = tx.GenHash()
+	}
 	c.w.txs[id] = tx
 	c.w.ids[tx] = id
 	c.txByH[tx.Hash] = id
 	c.out.Emit(fmt.Sprintf("tx %d %s %s %d %d 0", id, hx.Hex(tx.Hash.Bytes()), hx.Hex([]byte(tx.Source)), nonce, req), "ok")
 	return id
 }
+
+const chPoor = "0x00000000000000000000000000000000000c17aa"
 
 func (c *chainRun) tags(txs []*types.Transaction) string {
 	if len(txs) == 0 {
@@ -253,7 +268,19 @@ func runChain(a map[string]string, _ service.TransactionPool) {
 			}
 			ids = append(ids, c.newTx(nextNonce+uint64(i), req))
 		}
+		// one transaction of an account without funds: evicted by the block that carries it
+		poor := c.newTxFrom(chPoor, uint64(hno), 0) // RequestId 0: the header's request ids are computed from the packed list, an evicted gate transaction would make verifiers refuse the block
 		pool := service.GetTransactionPool()
+		out.Emit("add "+strconv.Itoa(poor), hx.Guard(func() string {
+			ok, err := pool.AddTransaction(w.txs[poor])
+			if ok && err == nil {
+				return "ok"
+			}
+			if err == service.ErrExist {
+				return "exist"
+			}
+			return "err"
+		}))
 		// some are submitted to this node, the others are only ever seen inside blocks
 		for _, id := range ids {
 			if r.Chance(2, 3) {
@@ -277,7 +304,7 @@ func runChain(a map[string]string, _ service.TransactionPool) {
 		// wins with an empty heavier block — the reorg makes A's transactions pending again — and executes them
 		// itself afterwards, in another split and order.)
 		k1 := 1 + r.Intn(len(ids)-2)
-		a1 := c.build(base, 1, ids[:k1])
+		a1 := c.build(base, 1, append(append([]int{}, ids[:k1]...), poor))
 		a2 := c.build(a1, 1, ids[k1:])
 		c.deliver(a1)
 		c.deliver(a2)
